@@ -443,6 +443,11 @@ var allBK = []int{-1, 0, 1, 2, 3}
 // spacing multiplied by the same power of two, which is exact): absolute tolerances and thresholds only show there
 func generate(suite string, seed uint64, i int) *Case {
 	c := generate0(suite, seed, i)
+	if c != nil && c.Arg != nil && i%4 == 0 {
+		if _, rep := c.Arg["repeat"]; rep {
+			c.Arg["optlist"] = 1.0 // one repeat case in four also reuses one option list across calls
+		}
+	}
 	switch suite {
 	case "e2e", "c03", "c04", "c05", "c06":
 		ru := caseRng(suite+"#unit", seed, i)
